@@ -71,6 +71,7 @@ class SkyConfig:
     nref: int = 2
     nunk: int = 2
     rweight: float | None = None
+    print_every: int = 1
     lo: list = field(default_factory=list)   # derived: half-steps per scale per bin
     hi: list = field(default_factory=list)
     theta_impl: int = 0
@@ -115,7 +116,7 @@ class SkyConfig:
         seq = lambda rows: "<<" + ", ".join("<<" + ", ".join(str(x) for x in r) + ">>" for r in rows) + ">>"
         return dict(M=self.M, Slots=self.slots, Centres="<<" + ", ".join(map(str, self.centres)) + ">>", NB=self.nb,
                     Closed=f'"{self.closed}"', NS=len(self.rmin), Lo=seq(self.lo), Hi=seq(self.hi), ThetaMaxImpl=self.theta_impl,
-                    NRef=self.nref, NUnk=self.nunk, ZCells=self.zcells, Weights=self.weights, Deviations=deviations)
+                    NRef=self.nref, NUnk=self.nunk, ZCells=self.zcells, Weights=self.weights, PrintEvery=self.print_every, Deviations=deviations)
 
     def zvalue(self, cell: int) -> float:
         e = self.edges
